@@ -1,0 +1,108 @@
+//go:build verif
+
+package fzf
+
+import (
+	"fmt"
+	"reflect"
+	"sort"
+	"strings"
+)
+
+// verifDump renders a value structurally (pointers followed, map keys sorted, functions and
+// channels reduced to nil / non-nil), so that two Options can be compared field by field.
+func verifDump(sb *strings.Builder, v reflect.Value, depth int) {
+	if depth > 12 {
+		sb.WriteString("...")
+		return
+	}
+	switch v.Kind() {
+	case reflect.Ptr, reflect.Interface:
+		if v.IsNil() {
+			sb.WriteString("nil")
+			return
+		}
+		sb.WriteString("&")
+		verifDump(sb, v.Elem(), depth+1)
+	case reflect.Struct:
+		sb.WriteString("{")
+		for i := 0; i < v.NumField(); i++ {
+			if i > 0 {
+				sb.WriteString(" ")
+			}
+			sb.WriteString(v.Type().Field(i).Name)
+			sb.WriteString(":")
+			verifDump(sb, v.Field(i), depth+1)
+		}
+		sb.WriteString("}")
+	case reflect.Slice, reflect.Array:
+		if v.Kind() == reflect.Slice && v.IsNil() {
+			sb.WriteString("[]")
+			return
+		}
+		sb.WriteString("[")
+		for i := 0; i < v.Len(); i++ {
+			if i > 0 {
+				sb.WriteString(" ")
+			}
+			verifDump(sb, v.Index(i), depth+1)
+		}
+		sb.WriteString("]")
+	case reflect.Map:
+		keys := []string{}
+		vals := map[string]reflect.Value{}
+		for _, k := range v.MapKeys() {
+			var kb strings.Builder
+			verifDump(&kb, k, depth+1)
+			keys = append(keys, kb.String())
+			vals[kb.String()] = v.MapIndex(k)
+		}
+		sort.Strings(keys)
+		sb.WriteString("map[")
+		for i, k := range keys {
+			if i > 0 {
+				sb.WriteString(" ")
+			}
+			sb.WriteString(k)
+			sb.WriteString("=>")
+			verifDump(sb, vals[k], depth+1)
+		}
+		sb.WriteString("]")
+	case reflect.Func, reflect.Chan, reflect.UnsafePointer:
+		if v.IsNil() {
+			sb.WriteString("nil")
+		} else {
+			sb.WriteString("set")
+		}
+	case reflect.String:
+		fmt.Fprintf(sb, "%q", v.String())
+	case reflect.Bool:
+		fmt.Fprintf(sb, "%v", v.Bool())
+	case reflect.Int, reflect.Int8, reflect.Int16, reflect.Int32, reflect.Int64:
+		fmt.Fprintf(sb, "%d", v.Int())
+	case reflect.Uint, reflect.Uint8, reflect.Uint16, reflect.Uint32, reflect.Uint64, reflect.Uintptr:
+		fmt.Fprintf(sb, "%d", v.Uint())
+	case reflect.Float32, reflect.Float64:
+		fmt.Fprintf(sb, "%g", v.Float())
+	default:
+		sb.WriteString("?")
+	}
+}
+
+// VerifOptionsFull parses the arguments (with or without $FZF_DEFAULT_OPTS) and returns
+// "ok" with a structural dump of every field of the resulting Options, "reject" with the error
+// message, or "crash" with the panic value.
+func VerifOptionsFull(useDefaults bool, args []string) (status string, dump string) {
+	defer func() {
+		if r := recover(); r != nil {
+			status, dump = "crash", fmt.Sprint(r)
+		}
+	}()
+	opts, err := ParseOptions(useDefaults, args)
+	if err != nil {
+		return "reject", err.Error()
+	}
+	var sb strings.Builder
+	verifDump(&sb, reflect.ValueOf(opts), 0)
+	return "ok", sb.String()
+}
